@@ -11,6 +11,7 @@
 package simsched
 
 import (
+	"sync"
 	"fmt"
 	"runtime"
 	"sync/atomic"
@@ -44,6 +45,7 @@ type Sim struct {
 	panicVal  interface{}
 	liveCount int
 	prio      []int // pct priorities
+	wg        map[*sync.WaitGroup]int // counters of the wait groups the tasks use (WGAdd / WGDone / WGWait)
 }
 
 var (
@@ -314,6 +316,46 @@ func RLock(l tryRLocker, site string) {
 		s.yield(t, "wait:"+site, true)
 	}
 	t.lockWait = false
+}
+
+// WGAdd, WGDone, WGWait replace x.Add(n), x.Done(), x.Wait() on a sync.WaitGroup: a task that waits never
+// blocks its OS thread while the tasks it waits for are parked; it yields until the counter the tasks
+// themselves produced is back at zero, then calls the real Wait (which returns at once).
+//go:norace
+func WGAdd(w *sync.WaitGroup, n int) {
+	if s, t := curTask(); s != nil && t != nil {
+		s.mu.Lock()
+		if s.wg == nil {
+			s.wg = map[*sync.WaitGroup]int{}
+		}
+		s.wg[w] += n
+		s.mu.Unlock()
+	}
+	w.Add(n)
+}
+
+//go:norace
+func WGDone(w *sync.WaitGroup) { WGAdd(w, -1) }
+
+//go:norace
+func WGWait(w *sync.WaitGroup, site string) {
+	s, t := curTask()
+	if s == nil || t == nil {
+		w.Wait()
+		return
+	}
+	s.yield(t, "wgwait:"+site, false)
+	for {
+		s.mu.Lock()
+		c := s.wg[w]
+		s.mu.Unlock()
+		if c <= 0 {
+			break
+		}
+		s.yield(t, "wait:"+site, true)
+	}
+	t.lockWait = false
+	w.Wait()
 }
 
 // Active reports whether the caller runs as a scheduled task.
